@@ -43,7 +43,9 @@ add("C09", "exploration", "property-based testing (Hypothesis): grammar-built re
     "keys. Checked: print(parse(r)) == r, expansion idempotent, relative and absolute spellings agree in "
     "DataReference/ComponentIdentifier, an independent classifier written from the statement agrees with "
     "ParseDataReferenceFull / is_datareference_to_component / expand_component_references / Manifest.top_level_folders, "
-    "and FlowIRConcrete.validate + package loading accept folder references. Held on everything generated.",
+    "and FlowIRConcrete.validate + package loading accept folder references. Sub-check `implied`: "
+    "Manifest.fromDirectory() of a generated directory (folders, files, links, link chains) equals what the directory "
+    "holds. Held on everything generated.",
     "Single-segment absolute paths and component names that equal a folder name (documented as unsupported) are outside "
     "the asserted domain; copyout references are kept out of command lines (tokeniser ambiguity noted for C10/C11).",
     "DESIGN.md section 3, C09")
@@ -88,7 +90,7 @@ add("C17", "exploration", "property-based testing (Hypothesis): generated packag
     "environment model written from the statement; sentinel leak check",
     "Packages with environments on default/selected/unrelated platforms in mixed-case spellings, DEFAULTS lists, $X/${X} "
     "references, interpreter components and every environment selector (unset, empty, none, environment, named, "
-    "undefined) are resolved with WorkflowGraph.environmentForNode (FlowIRConcrete+configuration graph and full "
+    "undefined; a twin in lower case must get the same answer) are resolved with WorkflowGraph.environmentForNode (FlowIRConcrete+configuration graph and full "
     "Experiment) under a controlled os.environ; the result must equal the model exactly (system variables + declared "
     "sources), an undefined environment must raise FlowIREnvironmentUnknown, and no unreferenced launch variable may "
     "appear by name or value.",
@@ -134,7 +136,9 @@ add("C19", "exploration", "property-based testing (Hypothesis): generated legacy
     "and loaded back; per component the resolved configuration, references and variables, plus environments, status and "
     "output sections must be equal. A deterministic sweep touches each of the 49 keys of the mapping table in every mode on "
     "every run. A third of the multi-stage instance cases are followed by a second dump (workflow minus its last stage) "
-    "into the same directory.", "Domain restricted to what both the writer and the parser define (single-line ASCII values, numeric "
+    "into the same directory. Sub-check `reconf`: DOSINIExperimentConfiguration creates the instance files of a small "
+    "legacy package, reloads the instance with a user variable file and updateInstanceFiles; the files must describe the "
+    "configuration that was built.", "Domain restricted to what both the writer and the parser define (single-line ASCII values, numeric "
     "options are numbers or one whole %(var)s reference); errors the loader only collects are not violations.",
     "DESIGN.md section 3, C19")
 
